@@ -439,6 +439,17 @@ def run(ctx: Ctx) -> None:
             n = rng.randrange(0, m - 20)
             k = min(len(base), n + rng.randrange(15, 120))
             hists.append((base[:m] + base[n:k], "rewind", name, cfg))
+    # the same histories under another, equally ordinary configuration: the user's known_list names the gateway (class HGI) and a device or two, and is
+    # NOT enforced -- the running gateway accepts everybody, so must the restart
+    for name, base, cfg in syss:
+        hgi = next((m.group(0) for ln in base for m in [re.search(r"\b18:\d{6}\b", ln)] if m), None)
+        if hgi is None or (cfg or {}).get("config", {}).get("enforce_known_list"):
+            continue
+        devs = sorted({x for ln in base[:200] for x in re.findall(r"\b(?:01|04|13|34):\d{6}\b", ln[27:90])})[:2]
+        c2 = json.loads(json.dumps(cfg or {}))
+        c2["known_list"] = {hgi: {"class": "HGI"}, **{d: {} for d in devs}}
+        c2.setdefault("config", {})["enforce_known_list"] = False
+        hists.append((base[:rng.randrange(min(60, len(base)), min(len(base), 400) + 1)], "known-list-not-enforced", name, c2))
     for lines, kind, name, cfg in hists:
         eav = rng.random() < 0.5 if kind != "crafted-313F" else False
         try:
